@@ -22,6 +22,11 @@ def main(tier, replay):
         jobs.append({'name': 'sens-unpack-w%d' % w, 'pkg': PKG, 'func': 'HarnessUnpack', 'args': [w, 1], 'expect': 'spec order'})
     jobs.append({'name': 'vacuity-twin', 'pkg': PKG, 'func': 'HarnessVacuity', 'args': [2], 'expect': 'vacuity'})
     c.engine(REPO, [PKG], ov, jobs, ctx=ctx, record=50 if tier == 'thorough' else 0)
+    # engine vs native build on concrete pseudo-random groups (observations: packed bytes, unpacked values)
+    c2 = dict(ctx, dir=REPO, overlay=ov)
+    for w in (1, 2, 3, 4):
+        differential(c, {'name': 'pack-w%d' % w, 'pkg': PKG, 'func': 'HarnessPack', 'args': [w, 0]}, c2, runs=50 if tier == 'quick' else 200)
+        differential(c, {'name': 'unpack-w%d' % w, 'pkg': PKG, 'func': 'HarnessUnpack', 'args': [w, 0]}, c2, runs=50 if tier == 'quick' else 200)
 
     # the generator behind the checked-in file: regenerate from the working tree and check that too
     mod = make_scratch_module(c)
